@@ -193,6 +193,20 @@ def _run_cfg(ctx, rep, prog, cfg):
                     allowed = has_root(r, "field", adt, "wkc") or has_root(r, "arg", 1)
                 rep.ob("C11.default", "ctor:%s in %s%s" % (adt, b.root_short, tag), allowed, "%s constructed in %s" % (adt, b.root_short), loc=q.loc(b, bi, si), how="inventory", nontrivial=False)
 
+    # ---- C11.raw: users of the multi-datagram frame API that are entry points of the property -------------
+    # Group state transitions are named in the quantifier and have no explicit opt-out: every status
+    # response must pass wkc(1) before its data is looked at.
+    gb = prog.async_body("SubDeviceGroup::is_state")
+    gp = Prov(gb)
+    un = [c for c in gb.calls() if c.is_("EtherCrabWireRead::unpack_from_slice") and "AlControl" in (c.res_s or "")]
+    wk = [c for c in gb.calls() if c.is_("ReceivedPdu::wkc")]
+    okg = len(un) == 1 and len(wk) == 1
+    if okg:
+        okg = has_root(gp.of_operand(un[0].args[0]), "call", "ReceivedPdu::wkc") and q.const_int(wk[0].args[1]) == 1 and gb.dominates(wk[0].bb, un[0].bb)
+        # the checked PDU is the one delivered by the response iterator
+        okg = okg and any(x[0] == "call" and x[1].endswith("::next") for x in gp.of_operand(wk[0].args[0]))
+    rep.ob("C11.raw", "SubDeviceGroup::is_state:wkc-before-decode" + tag, okg, "every AL status response of a group state poll passes .wkc(1) before the state is decoded from it (a station address answered by no or by two devices is a working counter error, not 'in state')", loc=gb.span)
+
     # ---- C11.optout ------------------------------------------------------------------------
     inv = table["ignore_wkc"]
     sites = [c for c in prog.calls_of("WrappedRead::ignore_wkc") + prog.calls_of("WrappedWrite::ignore_wkc") if c.body.crate == "ethercrab"]
